@@ -440,6 +440,11 @@ def parts(tier):
                       (("P", "p", ()),), (("I", "a", ()),)):
             for off in OFFS:
                 yield (tiers, 0.0, 4.0, off)
+        # textgrids on the negative side of the time axis (span -3..2): also the shift by nothing drops / clips what lies before 0, in every tier
+        for nE in (((-3.0, -2.0, "a"), (-1.0, 1.0, "b")), ((-3.0, -1.0, "a"),), ((0.0, 1.0, "a"),), ()):
+            for nP in (((-2.0, "x"), (0.0, "y"), (1.0, "z")), ((-1.0, "x"),), ()):
+                for off in (0.0, 0, -0.0, 0.5, -1.0, 1.0, 3.0):
+                    yield ((("I", "a", nE), ("P", "p", nP)), -3.0, 2.0, off)
         # a history on the textgrid before the shift (prime, exchange a tier, shift)
         for tiers in ((("I", "a", D.labelled(((0.0, 1.0), (2.0, 3.0)))), ("P", "p", D.labelled_points((1.0, 3.0)))),
                       (("P", "p", D.labelled_points((2.0,))), ("I", "a", D.labelled(((1.0, 4.0),))), ("I", "b", ()))):
